@@ -11,9 +11,9 @@ COMMON_TB = [
 
 PROPS = {
     "C17": dict(
-        modules=["HT.Props.C17", "HT.Props.C17Ipp"],
+        modules=["HT.Props.C17", "HT.Props.C17Ipp", "HT.Props.GenC17"],
         streams=["c17dec", "c17ipp"],
-        gen=False,
+        gen=True,
         rule="decoder: all op sequences up to the tier's length bound over 32 ops x boundary buffers of "
              "length 0..6 run on the implementation with the oracle (sequences <= 2 also through the Lean "
              "model), plus seeded random long sequences/large buffers; a case is non-trivial when at least "
@@ -132,7 +132,8 @@ PROPS = {
         assumptions=["host parts are IP literals or empty (host names need the resolver and are outside the model)"],
     ),
     "C10": dict(
-        modules=["HT.Props.C10"],
+        gen=True,
+        modules=["HT.Props.C10", "HT.Props.GenC10"],
         streams=["c10svc"],
         rule="the four real services (through services.Get, connection wrapped as the server wraps it, replies "
              "recorded by the datagram connection): every request kind alone in bursts of 1..6/50/200, seeded mixes "
@@ -234,7 +235,8 @@ PROPS = {
 }
 
 PROPS["C04"] = dict(
-    modules=["HT.Props.C04", "HT.Props.C04Http", "HT.Props.C04Redis", "HT.Props.C04HttpOnce"],
+    gen=True,
+    modules=["HT.Props.C04", "HT.Props.C04Http", "HT.Props.C04Redis", "HT.Props.C04HttpOnce", "HT.Props.GenC04"],
     streams=["c04seg"],
     rule="services configured on a real Honeytrap (real Run(): construction, port table, bus, filter -> capture channel), "
          "connections handed to the real handle() (findService, timeout wrapper, recover) over a scripted connection whose "
@@ -256,7 +258,7 @@ PROPS["C04"] = dict(
 )
 
 PROPS["C03"] = dict(
-    modules=["HT.Props.C03"],
+    modules=["HT.Props.C03", "HT.Props.C03Framed"],
     streams=["c03iso"],
     rule="one Honeytrap with ftp, telnet, smtp, redis, memcached, http, ldap and tftp configured (real Run()); sessions "
          "with distinct fake client addresses on step-driven in-memory connections, the harness releasing one "
@@ -279,7 +281,8 @@ PROPS["C03"] = dict(
 )
 
 PROPS["C09"] = dict(
-    modules=["HT.Props.C09"],
+    gen=True,
+    modules=["HT.Props.C09", "HT.Props.GenC09"],
     streams=["c09rel"],
     rule="all 25 lab services on one real Honeytrap; connections through the real handle() over loopback TCP sockets "
          "(server side presented with the service's port) and datagram connections: per service 5-9 inputs (nothing, "
@@ -393,7 +396,9 @@ MANIFEST_TEXT = {
              "touch only their own local state and their own key's slot, under every schedule (any number of sessions, any "
              "interleaving at step granularity, any history before) a session whose key no other session has sees exactly "
              "what it sees alone on a fresh service (induction over the schedule); the tftp upload table (keyed by client "
-             "address), the ldap per-connection bind state and the ftp per-session login/working-directory state are instances; counterexample theorems record the two defect "
+             "address), the ldap per-connection bind state, the ftp per-session login/working-directory state and - with segments "
+             "as steps - every per-connection framing machine of C04 (ftp command log, smtp, http, ...) are instances, the last "
+             "giving: under any interleaving of segments each connection produces the events of its own stream in one piece; counterexample theorems record the two defect "
              "shapes (one slot for everybody: ldap as it was; a key two clients share). Tied to the real services by "
              "deterministic step-level interleavings of scripted sessions through the real dispatcher, each session's "
              "transcript and events compared with its solo run on a freshly built service.",
